@@ -7,16 +7,20 @@ for d in sorted(glob.glob('/verif/seeded/C*/'), key=lambda x: (x.split('/')[-2].
     name = os.path.basename(d.rstrip('/'))
     desc = (m.get('summary') or '').replace('|', '/').replace('\n', ' ')
     desc = desc[:100].rsplit(' ', 1)[0] + '…'
+    if m.get('superseded'):
+        rows.append((name, desc, 'no longer breaking (see meta.json): silent, as it must be', '—'))
+        continue
     rows.append((name, desc, ' '.join(m['checks_fired']) or '—', ' '.join(m['rules_fired']) or '—'))
 out = ['| seed | what the change does (short) | checks that fire | rules |', '|---|---|---|---|']
 for r in rows:
     out.append('| %s | %s | %s | %s |' % r)
-c = sum(1 for r in rows if r[2] != '—')
+breaking = [r for r in rows if not r[2].startswith('no longer breaking')]
+c = sum(1 for r in breaking if r[2] != '—')
 out.append('')
-out.append('%d of %d confirmed changes are caught.' % (c, len(rows)))
+out.append('%d of %d confirmed breaking changes are caught (%d stored change(s) stopped being breaking after a later fix).' % (c, len(breaking), len(rows) - len(breaking)))
 s = open('/verif/DESIGN.md').read()
 i = s.index('<!-- SEEDS-BEGIN -->')
 j = s.index('<!-- SEEDS-END -->')
 s = s[:i] + '<!-- SEEDS-BEGIN -->\n' + '\n'.join(out) + '\n' + s[j:]
 open('/verif/DESIGN.md', 'w').write(s)
-print(c, len(rows))
+print(c, len(breaking))
